@@ -73,7 +73,7 @@ def case_st(draw):
         for j in draw(st.lists(st.integers(0, ncell - 1), min_size=1, max_size=2, unique=True)):
             vals[j] = draw(st.sampled_from(["inf", "-inf"]))
     spec = {"dims": dims, "labels": labels, "vk": vk, "vals": vals, "attrs": {"units": "K", "h": [1]}}
-    case = {"mode": mode, "spec": spec, "ax": ax, "axis_form": draw(st.sampled_from(["name", "pos"])), "new": draw(points(labels[ax])),
+    case = {"mode": mode, "spec": spec, "ax": ax, "axis_form": draw(st.sampled_from(["name", "pos", "neg"])), "new": draw(points(labels[ax])),
             "left": draw(st.sampled_from(["nan", "nan", -77.0, 0, 0.0])), "right": draw(st.sampled_from(["nan", "nan", 88.0, 0, 0.0])),
             "issorted": draw(st.sampled_from([None, None, True])), "new_as": draw(st.sampled_from(["list", "array"]))}
     if mode == "like":
@@ -202,7 +202,7 @@ def run_case(case):
     nontrivial = classify(cl, labels[ax], new, ax, nd, case)
     what = "%s new=%s %s dims=%s labels=%s vals=%s axis=%s" % (case["mode"], new, kw, dims, labels, spec["vals"], d)
     if case["mode"] == "axis":
-        axis = d if case["axis_form"] == "name" else ax
+        axis = d if case["axis_form"] == "name" else (ax if case["axis_form"] == "pos" else ax - nd)
         kw2 = dict(kw)
         if case["issorted"] and gen.order_of(labels[ax]) in ("inc", "short"):
             kw2["issorted"] = True
@@ -237,7 +237,7 @@ def run_case(case):
     else:
         dspec = {"vars": [["main", spec]] + [["o%d" % j, o] for j, o in enumerate(case["others"])], "attrs": {"title": "t"}}
         ds = core.build_dataset(dspec)
-        axis = d if case["axis_form"] == "name" else list(ds.dims).index(d)
+        axis = d if case["axis_form"] == "name" else (list(ds.dims).index(d) - (len(ds.dims) if case["axis_form"] == "neg" else 0))
         res = lib(lambda: ds.interp_axis(list(new), axis=axis, **kw), what=what + " others=%s" % core.jsonable([[o["dims"], o["labels"]] for o in case["others"]]), sig=sig)
         check(isinstance(res, da.Dataset) and list(res.keys()) == [n for n, _ in dspec["vars"]], "dataset-keys", {"what": what}, sig)
         for name, s in dspec["vars"]:
